@@ -56,6 +56,14 @@ CLAIMS = {
    text="The lock discipline is translated from apbp.cpp, icu.h, interpreter.h, processor.cpp, teakra.cpp, mmio.cpp on every run (tools/translate_locks.py, fails loudly) and the theorems are re-checked over the regenerated table: every pair of conflicting accesses from the host and DSP threads to a shared member holds a common lock or is atomic (race freedom, with the ICU vector tables as the one recorded exception), the lock-acquisition order incl. locks held across callbacks and re-entrant host callbacks is acyclic (no deadlock), and the atomic actions of the interleaving model are exactly the code's critical sections. Over the small-step interleaving semantics built from those actions and the sequential Apbp/ICU models: every value received was sent, values are observed in send order, the last value sent is observed once the sender is quiescent (safety form), every completed send with interrupts enabled has triggered the peer's interrupt and set the routed core latches, and a latch set by SignalInterrupt is seen by exactly one exchange - for all interleavings and unbounded histories, by invariants and induction.",
    note=NOTE_COMMON + " Cannot exhibit: the C++ memory model below lock/atomic level, scheduler fairness/liveness ('eventually observed' is proved in its safety form only). The thread model (which API methods run on which thread, init-only callbacks) is hand-written and listed in the evidence assumptions; TSan is used only to confirm a reported race on the real code.",
    tech="translator-regenerated lock table + kernel-checked race/lock-order checkers (decide +kernel) + invariant proofs over an interleaving semantics", ref="§7 C19"),
+ "C11": dict(
+   text="Kernel-checked theorems over the Lean model of SharedMemory, MemoryInterfaceUnit and MemoryInterface: program word p is bytes 2p, 2p+1 (little endian) and is rejected exactly when outside the 0x80000-byte array; in the default paging mode data word a in bank z < 2 is the word at 0x20000 + 0x10000*z + a (the paged mode with the code's comparison stated as written); the 32-bit-address accessors mask to 17 bits and add 0x20000; a write through ANY view (program, data with or without MMIO bypass, 32-bit-address, raw bytes) is read back through every view that reaches the same cell, and changes no other cell; reads do not write; a data address inside the MMIO window (z_page 0) reaches the register and leaves the memory underneath unchanged, the bypass reaches the memory underneath; Reset clears the memory. Tied to the C++ on a real Teakra::Teakra (user-supplied and internally owned memory, all views incl. the raw pointer, many MMIO bases and page settings) by the `bus` correspondence unit, which also evaluates the view agreement on the implementation itself.",
+   note=NOTE_COMMON + " That every load/store instruction calls the memory interface with the address its addressing form says is the instruction-level correspondence (C01/C10). The u32 multiplication `word_address * 2` drops the top bit of a 32-bit program address (theorem program_alias_top_bit states the aliasing the code has).",
+   tech="Lean 4 theorems over the bus model (cell function per port, frame lemmas) + correspondence run on the real facade", ref="§7 C11"),
+ "C12": dict(
+   text="Kernel-checked theorems over the Lean model of MMIORegion (all 0x800 offsets: 111 bound cells transcribed from mmio.cpp, every other offset a storage word) and the peripherals behind it: every read/write register field reads back the value last written on its documented mask through either path (host accessor at any 0x800 mirror, DSP data access at the window base); a write to one offset changes the read-back of another offset only for the 45 listed couplings (DMA channel window select and start, MMIO window relocation, timer restart/counter mirror, interrupt trigger/acknowledge, FIFO and mailbox side effects); only the 9 listed trigger cells emit events; reads are pure except the three mailbox FIFO cells; the DMA channel window gives each of the eight channels independent copies. Tied to the C++ by the `bus` correspondence unit on a real Teakra::Teakra: per offset and value, one write between two complete read-back sweeps over all 0x800 offsets through both paths, the mirrors compared on the real code, plus random read/write histories with the interrupt latches and callback events compared.",
+   note=NOTE_COMMON + " The classification tables (read/write masks, couplings, trigger cells) are proved equal to the model's cell functions and are evaluated on the implementation's own answers by the check. A window access with DMA active_channel >= 8 indexes outside channels[8] in the C++ (C18); model and harness answer `oob` there.",
+   tech="Lean 4 theorems over the MMIO cell table (decide +kernel over the finite table + frame lemmas) + exhaustive-in-offset correspondence", ref="§7 C12"),
 }
 
 PENDING = "not claimed yet: model and theorems for this property are still being built (DESIGN.md §10 staging); no check is registered until it is green on the unchanged tree"
